@@ -49,4 +49,6 @@ static int cfgv_filter(cfg_t *cfg, cfg_opt_t *opt, cfg_print_filter_func_t self)
 int cfgv_filter_own(cfg_t *cfg, cfg_opt_t *opt) { return cfgv_filter(cfg, opt, cfgv_filter_own); }
 int cfgv_filter_inh(cfg_t *cfg, cfg_opt_t *opt) { return cfgv_filter(cfg, opt, cfgv_filter_inh); }
 void h_dfcc_printcfg(void) { cfg_t *c; FILE *fp; cfg_print_filter_func_t f; int d; cfg_print_pff_indent(c, fp, f, d); }
+void h_dfcc_print_indent(void) { cfg_t *c; FILE *fp; int d; cfg_print_indent(c, fp, d); }
+void h_dfcc_print(void) { cfg_t *c; FILE *fp; cfg_print(c, fp); }
 #endif
